@@ -306,6 +306,11 @@ def s1e_release_guards(chk: Check, proj: Project, w) -> None:
                    f"`{short(st.test)}` tests the key only" if not foreign else
                    f"`{short(foreign[0])}` makes the release return early without looking at `{key}`: a component that registered while another provider's data was alive and unregisters after that data is gone stays in all_reference_ids for good (one entry per render)")
     chk.floor("S1e", n, 1)
+    for lp in [x for x in ast.walk(f) if isinstance(x, ast.For)]:
+        brk = [x for x in ast.walk(lp) if isinstance(x, (ast.Break, ast.Return)) and next((a for a in ancestors(x) if isinstance(a, (ast.For, ast.While))), None) is lp]
+        chk.ob("S1e", "perfutil.provide:unregister_provide_reference:visits-every-provider", m.loc(brk[0]) if brk else m.loc(lp), not brk,
+               "the loop over the providers has no break / return: the reference is removed from every provider that holds it" if not brk else
+               f"`{short(enclosing_stmt(brk[0]))}` stops at the first provider whose data was released: a component inside two or more {{% provide %}} tags is removed from only one, the other payload and its reference set stay for good")
 
 
 def s1d_normal_release(chk: Check, proj: Project, w) -> None:
